@@ -1,15 +1,68 @@
 (* The life-time / registration / event-kind monitor accepts every log the model can produce. *)
 From Coq Require Import ZArith List Bool Lia.
-From ServerLoop Require Import ServerLoopSpec ServerLoopModel ServerLoopBase ServerLoopInv.
+From ServerLoop Require Import ServerLoopSpec ServerLoopModel ServerLoopBase ServerLoopInv ServerLoopCb.
 Import ListNotations.
 Local Open Scope Z_scope.
 
 Definition sview (l : list (ent * fl)) : list (ent * Z) := map (fun x => (fst x, map_events (snd x))) l.
 
+(* the clients of the pool for which remove() has not been called (a client removed from inside the
+   onAccepted/onConnected that announces it stays in the pool until that callback returns) *)
+Definition live_keys (l : list (Z * client)) : list Z := map fst (filter (fun x => negb (c_rm (snd x))) l).
+
+Lemma live_keys_app l i c : live_keys (l ++ [(i, c)]) = live_keys l ++ (if c_rm c then [] else [i]).
+Proof. unfold live_keys. rewrite filter_app, map_app. cbn [filter snd]. destruct (c_rm c); reflexivity. Qed.
+
+Lemma In_live_keys i l : In i (live_keys l) -> In i (map fst l).
+Proof.
+  unfold live_keys. intros H. apply in_map_iff in H. destruct H as [[k c] [E H]]. apply filter_In in H. destruct H as [H _].
+  cbn in E. subst k. apply (in_map fst) in H. exact H.
+Qed.
+
+Lemma live_keys_In i c l : alookup Z.eqb i l = Some c -> c_rm c = false -> In i (live_keys l).
+Proof.
+  intros L R. apply (alookup_In Z.eqb zeq) in L. unfold live_keys. apply in_map_iff. exists (i, c). split; [reflexivity|].
+  apply filter_In. split; [exact L | cbn [snd]; rewrite R; reflexivity].
+Qed.
+
+Lemma live_keys_notin i c l : NoDup (map fst l) -> alookup Z.eqb i l = Some c -> c_rm c = true -> ~ In i (live_keys l).
+Proof.
+  intros ND L R H. unfold live_keys in H. apply in_map_iff in H. destruct H as [[k c'] [E H]]. cbn in E. subst k.
+  apply filter_In in H. destruct H as [H Hr]. cbn [snd] in Hr.
+  apply (In_alookup Z.eqb zeq _ _ _ ND) in H. rewrite L in H. inversion H; subst. rewrite R in Hr. discriminate.
+Qed.
+
+Lemma live_keys_aset_same i c c0 l : alookup Z.eqb i l = Some c0 -> c_rm c = c_rm c0 -> live_keys (aset Z.eqb i c l) = live_keys l.
+Proof.
+  intros L R. unfold live_keys. induction l as [|[k v] l IH]; cbn [alookup aset] in *; [discriminate|].
+  destruct (k =? i) eqn:E.
+  - inversion L; subst v. cbn [filter snd]. rewrite R. destruct (negb (c_rm c0)); reflexivity.
+  - cbn [filter snd]. destruct (negb (c_rm v)); cbn [map fst]; rewrite IH by exact L; reflexivity.
+Qed.
+
+Lemma live_keys_aset_kill i c c0 l :
+  NoDup (map fst l) -> alookup Z.eqb i l = Some c0 -> c_rm c0 = false -> c_rm c = true ->
+  live_keys (aset Z.eqb i c l) = zremove i (live_keys l).
+Proof.
+  intros ND L R0 R. unfold live_keys. induction l as [|[k v] l IH]; cbn [alookup aset] in *; [discriminate|].
+  inversion ND as [|? ? Hn ND']; subst. destruct (k =? i) eqn:E.
+  - inversion L; subst v. cbn [filter snd]. rewrite R, R0. cbn [negb map fst zremove]. rewrite E. reflexivity.
+  - cbn [filter snd]. destruct (negb (c_rm v)); cbn [map fst zremove]; rewrite ?E, IH by assumption; reflexivity.
+Qed.
+
+Lemma live_keys_aremove i l : NoDup (map fst l) -> live_keys (aremove Z.eqb i l) = zremove i (live_keys l).
+Proof.
+  intros ND. unfold live_keys. induction l as [|[k v] l IH]; cbn [aremove]; [reflexivity|].
+  inversion ND as [|? ? Hn ND']; subst. destruct (k =? i) eqn:E.
+  - apply Z.eqb_eq in E; subst k. cbn [filter snd]. destruct (negb (c_rm v)); cbn [map fst zremove]; [rewrite Z.eqb_refl; reflexivity|].
+    symmetry. apply zremove_notin. intros C. apply Hn. apply (In_live_keys i l). exact C.
+  - cbn [filter snd]. destruct (negb (c_rm v)); cbn [map fst zremove]; rewrite ?E, IH by assumption; reflexivity.
+Qed.
+
 (* fc: how the monitor's live clients relate to the pool (identity, except between the "null" return
    of onAccepted/onConnected and the deletion of the client) *)
 Definition relRg (fc : list Z -> list Z) (m : rmon) (s : state) : Prop :=
-  r_tm m = map fst (timers s) /\ r_cl m = fc (map fst (clients s)) /\ r_li m = listeners s /\ r_es m = estabs s /\
+  r_tm m = map fst (timers s) /\ r_cl m = fc (live_keys (clients s)) /\ r_li m = listeners s /\ r_es m = estabs s /\
   r_seen m = used s /\ r_reg m = sview (socks s).
 Definition CplRg (fc : list Z -> list Z) (s : state) : Prop := exists m, rmon_run (trace s) = Some m /\ relRg fc m s.
 Definition idl (l : list Z) : list Z := l.
@@ -34,7 +87,7 @@ Qed.
 
 Definition rirr (e : ev) : bool :=
   match e with
-  | EvNow _ | EvWait _ | EvItem _ | EvWrote _ _ _ | EvRead _ _ | EvSkip | EvInterrupt _ | EvRunEnter | EvRunRet => true
+  | EvNow _ | EvWait _ | EvItem _ | EvWrote _ _ _ | EvRead _ _ | EvSkip | EvInterrupt _ | EvRunEnter | EvRunRet | EvSel _ => true
   | _ => false
   end.
 
@@ -68,7 +121,7 @@ Create HintDb cplR.
 (* ---------- being alive, being registered ------------------------------------------------------------------------ *)
 Definition alive_s (s : state) (e : ent) : bool :=
   match e with
-  | Tm i => zmem i (map fst (timers s)) | Cl i => zmem i (map fst (clients s))
+  | Tm i => zmem i (map fst (timers s)) | Cl i => zmem i (live_keys (clients s))
   | Li i => zmem i (listeners s) | Es i => zmem i (estabs s)
   end.
 
@@ -82,18 +135,30 @@ Lemma reg_has_rel fc m s e p : relRg fc m s ->
   reg_has m e p = match alookup ent_eqb e (socks s) with Some g => p (map_events g) | None => false end.
 Proof. intros H. unfold reg_has. rewrite (reg_rel fc m s e H). destruct (alookup ent_eqb e (socks s)); reflexivity. Qed.
 
-Lemma alive_client s i c : alookup Z.eqb i (clients s) = Some c -> alive_s s (Cl i) = true.
-Proof. intros H. cbn [alive_s]. apply zmem_In. eapply alookup_Some_key; [apply zeq | eauto]. Qed.
+Lemma alive_client s i c : alookup Z.eqb i (clients s) = Some c -> c_rm c = false -> alive_s s (Cl i) = true.
+Proof. intros H R. cbn [alive_s]. apply zmem_In. eapply live_keys_In; eauto. Qed.
 
-Lemma alive_of_sock s e g : SInv s -> alookup ent_eqb e (socks s) = Some g -> alive_s s e = true.
+Lemma dead_client s i c : SInv s -> alookup Z.eqb i (clients s) = Some c -> c_rm c = true -> alive_s s (Cl i) = false.
+Proof. intros HI H R. cbn [alive_s]. apply zmem_false. eapply live_keys_notin; eauto. apply (si_cnd _ HI). Qed.
+
+(* outside onAccepted/onConnected every pooled client is live *)
+Lemma alive_pooled s i : CbEx None s -> In i (map fst (clients s)) -> alive_s s (Cl i) = true.
 Proof.
-  intros HI H. pose proof (si_socks _ HI _ _ H) as K. destruct e; cbn [sock_ok alive_s] in *; [contradiction | | |]; apply zmem_In; tauto.
+  intros HB Hi. destruct (In_key_alookup Z.eqb zeq i (clients s) Hi) as [c L].
+  apply (alive_client s i c L). apply (HB i c); [eapply alookup_In; [apply zeq | exact L] | discriminate].
+Qed.
+
+Lemma alive_of_sock s e g : SInv s -> CbEx None s -> alookup ent_eqb e (socks s) = Some g -> alive_s s e = true.
+Proof.
+  intros HI HB H. pose proof (si_socks _ HI _ _ H) as K. destruct e; cbn [sock_ok] in *; [contradiction | | |].
+  - apply alive_pooled; tauto.
+  - cbn [alive_s]. apply zmem_In; tauto.
+  - cbn [alive_s]. apply zmem_In; tauto.
 Qed.
 
 (* events that only need their object to be alive *)
 Definition needs_alive (e : ev) : option ent :=
   match e with
-  | EvDeferred x => Some x
   | EvAct t _ _ => Some (Tm t)
   | EvSend i _ _ false => Some (Cl i)
   | EvRecv i _ => Some (Cl i)
@@ -110,7 +175,6 @@ Proof.
   - destruct e; try discriminate. destruct k; try discriminate. inversion N; subst. cbn [rmon_step]. rewrite Ra. reflexivity.
   - destruct acc; [|discriminate]. inversion N; subst. cbn [rmon_step]. rewrite Ra. reflexivity.
   - destruct disp; [discriminate|]. inversion N; subst. cbn [rmon_step]. rewrite Ra. reflexivity.
-  - inversion N; subst. cbn [rmon_step]. rewrite Ra. reflexivity.
   - inversion N; subst. cbn [rmon_step]. rewrite Ra. reflexivity.
 Qed.
 
@@ -177,21 +241,36 @@ Proof.
   destruct R as (_ & _ & _ & _ & R5 & _). rewrite R5. unfold fresh in F. rewrite F. reflexivity.
 Qed.
 
-Lemma CplR_upd_client i c s : In i (map fst (clients s)) -> CplR s -> CplR (upd_client i c s).
+(* an update that keeps the "removed" flag of the client *)
+Lemma CplR_upd_client fc i c c0 s :
+  alookup Z.eqb i (clients s) = Some c0 -> c_rm c = c_rm c0 -> CplRg fc s -> CplRg fc (upd_client i c s).
 Proof.
-  intros Hi [m [A R]]. exists m. unfold upd_client. sproj. split; [exact A|].
-  unfold relRg in *. sproj. rewrite keys_aset_in by (try apply zeq; assumption). exact R.
+  intros L Hr [m [A R]]. exists m. unfold upd_client. sproj. split; [exact A|].
+  unfold relRg in *. sproj. rewrite (live_keys_aset_same i c c0) by assumption. exact R.
+Qed.
+
+Lemma upd_client_alive i c c0 s e :
+  alookup Z.eqb i (clients s) = Some c0 -> c_rm c = c_rm c0 -> alive_s (upd_client i c s) e = alive_s s e.
+Proof.
+  intros L Hr. destruct e; cbn [alive_s]; unfold upd_client; sproj; try reflexivity.
+  rewrite (live_keys_aset_same i c c0) by assumption. reflexivity.
+Qed.
+
+Lemma new_client_lookup i s :
+  ~ In i (map fst (clients s)) -> alookup Z.eqb i (clients (new_client i s)) = Some (mkCl false 0 false false).
+Proof.
+  intros Hn. apply (alookup_None Z.eqb zeq) in Hn. rewrite new_client_clients, alookup_app, Hn. cbn [alookup]. rewrite Z.eqb_refl. reflexivity.
 Qed.
 
 Lemma CplR_new_client i s : fresh (Cl i) s = true -> CplR s -> CplR (new_client i (log (EvCreated (Cl i) 0 0) s)).
 Proof.
   intros F H. destruct (CplR_created (Cl i) s F H) as [m [A R]].
   unfold new_client. cbn zeta. apply CplR_poll_set.
-  - cbn [alive_s]. sproj. apply zmem_In. rewrite map_app, in_app_iff. right; left; reflexivity.
+  - cbn [alive_s]. sproj. apply zmem_In. rewrite live_keys_app. cbn [c_rm]. rewrite in_app_iff. right; left; reflexivity.
   - reflexivity.
   - exists (r_add (Cl i) m). sproj. split; [exact A|].
     destruct R as (R1 & R2 & R3 & R4 & R5 & R6). unfold relRg, idl in *. sproj. cbn [r_add r_tm r_cl r_li r_es r_seen r_reg].
-    rewrite map_app. cbn [map fst]. rewrite R1, R2, R3, R4, R5, R6. repeat split; reflexivity.
+    rewrite live_keys_app. cbn [c_rm]. rewrite R1, R2, R3, R4, R5, R6. repeat split; reflexivity.
 Qed.
 
 Lemma CplR_timer_create i iv s :
@@ -238,7 +317,7 @@ Lemma CplR_removed e s s' :
   CplR s -> alive_s s e = true -> alookup ent_eqb e (socks s) = None ->
   trace s' = trace s -> used s' = used s -> socks s' = socks s ->
   map fst (timers s') = (match e with Tm i => zremove i (map fst (timers s)) | _ => map fst (timers s) end) ->
-  map fst (clients s') = (match e with Cl i => zremove i (map fst (clients s)) | _ => map fst (clients s) end) ->
+  live_keys (clients s') = (match e with Cl i => zremove i (live_keys (clients s)) | _ => live_keys (clients s) end) ->
   listeners s' = (match e with Li i => zremove i (listeners s) | _ => listeners s end) ->
   estabs s' = (match e with Es i => zremove i (estabs s) | _ => estabs s end) ->
   CplR (log (EvRemoved e) s').
@@ -279,7 +358,33 @@ Proof.
   eapply (CplR_removed (Cl i) s1); try reflexivity; try exact H1.
   - subst s1. cbn [alive_s]. rewrite poll_remove_clients. exact Al.
   - subst s1. apply poll_remove_unreg. exact HI0.
-  - sproj. symmetry. apply zremove_keys.
+  - sproj. apply live_keys_aremove. subst s1. rewrite poll_remove_clients. sproj. apply (si_cnd _ HI).
+Qed.
+
+(* the deletion of a client whose removal was deferred: the monitor has dropped it already *)
+Lemma CplR_delete_zombie i c s :
+  SInv s -> alookup Z.eqb i (clients s) = Some c -> c_rm c = true -> CplR s -> CplR (delete_client i s).
+Proof.
+  intros HI L Hr H. unfold delete_client. cbn zeta.
+  set (s1 := poll_remove (Cl i) (set_closing (zremove i (closing s)) s)).
+  assert (CplR s1) as H1 by (subst s1; auto with cplR).
+  assert (clients s1 = clients s) as Ec by (subst s1; rewrite poll_remove_clients; reflexivity).
+  destruct H1 as [m [A R]]. exists m. sproj. split; [exact A|].
+  unfold relRg, idl in *. sproj. rewrite Ec in *. rewrite live_keys_aremove by apply (si_cnd _ HI).
+  rewrite zremove_notin; [exact R|]. eapply live_keys_notin; eauto. apply (si_cnd _ HI).
+Qed.
+
+(* remove() of the client that is being announced: it counts as removed from now on *)
+Lemma CplR_deferred i c c' s :
+  SInv s -> alookup Z.eqb i (clients s) = Some c -> c_rm c = false -> c_rm c' = true ->
+  CplR s -> CplR (log (EvDeferred (Cl i)) (upd_client i c' s)).
+Proof.
+  intros HI L R0 R1 [m [A R]]. pose proof (r_alive_rel m s (Cl i) R) as Ra. rewrite (alive_client s i c L R0) in Ra.
+  exists (r_del (Cl i) m). unfold upd_client. sproj. unfold rmon_run in *. cbn [mon_run]. rewrite A. cbn [rmon_step]. rewrite Ra.
+  split; [reflexivity|].
+  destruct R as (Q1 & Q2 & Q3 & Q4 & Q5 & Q6). unfold relRg, idl in *. sproj. cbn [r_del r_tm r_cl r_li r_es r_seen r_reg].
+  rewrite (live_keys_aset_kill i c' c) by (try assumption; apply (si_cnd _ HI)).
+  rewrite Q1, Q2, Q3, Q4, Q5, Q6. repeat split; reflexivity.
 Qed.
 
 Lemma CplR_listener_remove i s :
@@ -305,11 +410,12 @@ Proof.
 Qed.
 
 (* ---------- actions --------------------------------------------------------------------------------------------------------------- *)
-Lemma CplR_client_set i c f s :
-  In i (map fst (clients s)) -> mask_ok (Cl i) (map_events f) = true -> CplR s -> CplR (poll_set (Cl i) f (upd_client i c s)).
+Lemma CplR_client_set i c c0 f s :
+  alookup Z.eqb i (clients s) = Some c0 -> c_rm c = c_rm c0 -> alive_s s (Cl i) = true ->
+  mask_ok (Cl i) (map_events f) = true -> CplR s -> CplR (poll_set (Cl i) f (upd_client i c s)).
 Proof.
-  intros Hi Mk H. apply CplR_poll_set; [|exact Mk | apply CplR_upd_client; assumption].
-  cbn [alive_s]. unfold upd_client. sproj. rewrite keys_aset_in by (try apply zeq; assumption). apply zmem_In; exact Hi.
+  intros L Hr Al Mk H. apply CplR_poll_set; [|exact Mk | eapply CplR_upd_client; eassumption].
+  rewrite (upd_client_alive i c c0) by assumption. exact Al.
 Qed.
 
 Lemma CplR_closing_append i s : CplR s -> CplR (closing_append i s).
@@ -327,38 +433,37 @@ Proof.
   - (* ARmTimer *) destruct (alookup Z.eqb i (timers s)) as [[et iv]|] eqn:E; [|auto with cplR].
     exact (CplR_timer_remove i et iv s HI E H).
   - (* APair *) destruct (fresh (Cl i) s) eqn:F; [|auto with cplR].
-    apply CplR_upd_client; [apply new_client_has | apply CplR_new_client; assumption].
-  - (* ARmClient *) destruct (alookup Z.eqb i (clients s)) as [c|] eqn:E; [|auto with cplR].
-    pose proof (alive_client s i c E) as Al. destruct (c_cb c).
+    eapply (CplR_upd_client idl i _ (mkCl false 0 false false)); [|reflexivity | apply CplR_new_client; assumption].
+    apply new_client_lookup. sproj. apply fresh_spec in F. destruct F as [_ F]. intros C. apply F. apply (si_used_c _ HI). exact C.
+  - (* ARmClient *) destruct (live_client i s) as [c|] eqn:E0; [apply live_client_some in E0; destruct E0 as [E Er]|auto with cplR].
+    pose proof (alive_client s i c E Er) as Al. destruct (c_cb c).
     + apply CplR_delete_client_removed; assumption.
-    + eapply CplR_log_alive; [reflexivity | | auto with cplR].
-      unfold closing_append. destruct (zmem i (closing s)); exact Al.
+    + apply (CplR_deferred i c); [exact HI | exact E | exact Er | reflexivity | exact H].
   - (* AListen *) destruct (fresh (Li i) s) eqn:F; [exact (CplR_listener_create i s F H) | auto with cplR].
   - (* ARmListener *) destruct (zmem i (listeners s)) eqn:E; [|auto with cplR]. apply CplR_listener_remove; assumption.
   - (* AConnect *) destruct (fresh (Es i) s) eqn:F; [exact (CplR_estab_create i s F H) | auto with cplR].
   - (* ARmEstab *) destruct (zmem i (estabs s)) eqn:E; [|auto with cplR]. apply CplR_estab_remove; assumption.
-  - (* AWrite *) destruct (alookup Z.eqb i (clients s)) as [c|] eqn:E; [|auto with cplR].
-    pose proof (alive_client s i c E) as Al.
-    assert (In i (map fst (clients s))) as Hi by (eapply alookup_Some_key; [apply zeq | eauto]).
+  - (* AWrite *) destruct (live_client i s) as [c|] eqn:E0; [apply live_client_some in E0; destruct E0 as [E Er]|auto with cplR].
+    pose proof (alive_client s i c E Er) as Al.
     destruct (n <? 1); [auto with cplR|]. destruct (c_back c =? 0).
     + cbn zeta. set (r := send_result n (next_send n s)).
       assert (CplR (log (EvSend i n r false) (drop_send s))) as H1
         by (eapply CplR_log_alive; [reflexivity | exact Al | auto with cplR]).
       destruct (failed_io r); [auto with cplR|].
       destruct (n <=? Z.max 0 r); [auto with cplR|].
-      apply CplR_log; [reflexivity|]. apply CplR_client_set; [exact Hi | destruct (c_susp c); reflexivity | exact H1].
-    + apply CplR_log; [reflexivity|]. apply CplR_upd_client; assumption.
-  - (* ARead *) destruct (alookup Z.eqb i (clients s)) as [c|] eqn:E; [|auto with cplR].
-    pose proof (alive_client s i c E) as Al. cbn zeta. set (r := recv_result (next_recv s)).
+      apply CplR_log; [reflexivity|]. apply (CplR_client_set i _ c); [exact E | reflexivity | exact Al | destruct (c_susp c); reflexivity | exact H1].
+    + apply CplR_log; [reflexivity|]. eapply CplR_upd_client; [exact E | reflexivity | exact H].
+  - (* ARead *) destruct (live_client i s) as [c|] eqn:E0; [apply live_client_some in E0; destruct E0 as [E Er]|auto with cplR].
+    pose proof (alive_client s i c E Er) as Al. cbn zeta. set (r := recv_result (next_recv s)).
     assert (CplR (log (EvRecv i r) (drop_recv s))) as H1
       by (eapply CplR_log_alive; [reflexivity | exact Al | auto with cplR]).
     destruct (failed_io r); auto with cplR.
-  - (* ASuspend *) destruct (alookup Z.eqb i (clients s)) as [c|] eqn:E; [|auto with cplR].
-    assert (In i (map fst (clients s))) as Hi by (eapply alookup_Some_key; [apply zeq | eauto]).
-    destruct (c_susp c); [exact H|]. apply CplR_client_set; [exact Hi | destruct (c_back c =? 0); reflexivity | exact H].
-  - (* AResume *) destruct (alookup Z.eqb i (clients s)) as [c|] eqn:E; [|auto with cplR].
-    assert (In i (map fst (clients s))) as Hi by (eapply alookup_Some_key; [apply zeq | eauto]).
-    destruct (negb (c_susp c)); [exact H|]. apply CplR_client_set; [exact Hi | destruct (c_back c =? 0); reflexivity | exact H].
+  - (* ASuspend *) destruct (live_client i s) as [c|] eqn:E0; [apply live_client_some in E0; destruct E0 as [E Er]|auto with cplR].
+    pose proof (alive_client s i c E Er) as Al.
+    destruct (c_susp c); [exact H|]. apply (CplR_client_set i _ c); [exact E | reflexivity | exact Al | destruct (c_back c =? 0); reflexivity | exact H].
+  - (* AResume *) destruct (live_client i s) as [c|] eqn:E0; [apply live_client_some in E0; destruct E0 as [E Er]|auto with cplR].
+    pose proof (alive_client s i c E Er) as Al.
+    destruct (negb (c_susp c)); [exact H|]. apply (CplR_client_set i _ c); [exact E | reflexivity | exact Al | destruct (c_back c =? 0); reflexivity | exact H].
   - auto with cplR.
   - auto with cplR.
 Qed.
@@ -435,16 +540,17 @@ Proof.
   - apply IH; [eapply SInv_timer_default; eauto | auto with cplR].
 Qed.
 
-Lemma CplR_closing_phase fuel s : SInv s -> CplR s -> CplR (closing_phase fuel s).
+Lemma CplR_closing_phase fuel s : SInv s -> CbEx None s -> CplR s -> CplR (closing_phase fuel s).
 Proof.
-  revert s. induction fuel as [|f IH]; intros s HI H; cbn [closing_phase]; [auto with cplR|].
+  revert s. induction fuel as [|f IH]; intros s HI HB H; cbn [closing_phase]; [auto with cplR|].
   destruct (closing s) as [|i r] eqn:E; [exact H|].
   assert (SInv (set_closing r s)) as HI1 by (eapply SInv_closing_pop; eauto).
+  assert (CbEx None (set_closing r s)) as HB1 by (eapply CbEx_frame; [|exact HB]; reflexivity).
   assert (CplR (set_closing r s)) as H1 by auto with cplR.
   sproj. destruct (alookup Z.eqb i (clients s)) as [c|] eqn:El.
-  - pose proof (alive_client s i c El) as Al. destruct (c_cb c).
-    + apply IH; [apply SInv_callback; exact HI1 | apply CplR_callback_closed; assumption].
-    + apply IH; [apply SInv_log; apply SInv_delete_client; exact HI1 | apply CplR_delete_client_removed; assumption].
+  - destruct (HB i c) as [Ecb Erm]; [eapply alookup_In; [apply zeq | exact El] | discriminate|].
+    pose proof (alive_client s i c El Erm) as Al. rewrite Ecb.
+    apply IH; [apply SInv_callback; exact HI1 | apply CbEx_callback; assumption | apply CplR_callback_closed; assumption].
   - apply IH; assumption.
 Qed.
 
@@ -484,11 +590,11 @@ Proof.
     { intros ->. apply F. apply (si_used_c _ HI). eapply alookup_Some_key; [apply zeq | eauto]. }
     apply nocb_upd; [|congruence].
     exists c0. unfold new_client. cbn zeta. rewrite poll_set_clients. sproj. rewrite alookup_app, A0. auto.
-  - (* ARmClient *) destruct (alookup Z.eqb i0 (clients s)) as [c|] eqn:E; [|eapply nocb_frame; [|exact H]; reflexivity].
+  - (* ARmClient *) destruct (live_client i0 s) as [c|] eqn:E0; [apply live_client_some in E0; destruct E0 as [E Er]|eapply nocb_frame; [|exact H]; reflexivity].
     destruct (c_cb c) eqn:Ecb.
     + assert (i0 <> i) as N by (intros ->; congruence).
       eapply nocb_frame; [|apply nocb_delete_other; [exact N | exact H]]. reflexivity.
-    + eapply nocb_frame; [|exact H]. sproj. apply closing_append_clients.
+    + eapply nocb_frame; [|apply (nocb_upd i i0 (mkCl false (c_back c) (c_susp c) true) s H); reflexivity]. reflexivity.
   - destruct (fresh (Li i0) s); [|eapply nocb_frame; [|exact H]; reflexivity].
     eapply nocb_frame; [|exact H]. rewrite poll_set_clients. reflexivity.
   - destruct (zmem i0 (listeners s)); [|eapply nocb_frame; [|exact H]; reflexivity].
@@ -497,7 +603,7 @@ Proof.
     eapply nocb_frame; [|exact H]. rewrite poll_set_clients. reflexivity.
   - destruct (zmem i0 (estabs s)); [|eapply nocb_frame; [|exact H]; reflexivity].
     eapply nocb_frame; [|exact H]. sproj. rewrite poll_remove_clients. reflexivity.
-  - (* AWrite *) destruct (alookup Z.eqb i0 (clients s)) as [c|] eqn:E; [|eapply nocb_frame; [|exact H]; reflexivity].
+  - (* AWrite *) destruct (live_client i0 s) as [c|] eqn:E0; [apply live_client_some in E0; destruct E0 as [E Er]|eapply nocb_frame; [|exact H]; reflexivity].
     destruct (n <? 1); [eapply nocb_frame; [|exact H]; reflexivity|].
     assert (i0 = i -> c_cb c = false) as K by (intros ->; congruence).
     destruct (c_back c =? 0).
@@ -506,13 +612,13 @@ Proof.
       * destruct (n <=? _); [eapply nocb_frame; [|exact H]; reflexivity|].
         eapply nocb_frame; [sproj; apply poll_set_clients|]. apply nocb_upd; [|cbn; exact K].
         eapply nocb_frame; [|exact H]. reflexivity.
-    + eapply nocb_frame; [|apply (nocb_upd i i0 (mkCl (c_cb c) (c_back c + n) (c_susp c)) s H); cbn; exact K]. reflexivity.
-  - (* ARead *) destruct (alookup Z.eqb i0 (clients s)) as [c|] eqn:E; [|eapply nocb_frame; [|exact H]; reflexivity].
+    + eapply nocb_frame; [|apply (nocb_upd i i0 (mkCl (c_cb c) (c_back c + n) (c_susp c) (c_rm c)) s H); cbn; exact K]. reflexivity.
+  - (* ARead *) destruct (live_client i0 s) as [c|] eqn:E0; [apply live_client_some in E0; destruct E0 as [E Er]|eapply nocb_frame; [|exact H]; reflexivity].
     cbn zeta. destruct (failed_io _); eapply nocb_frame; [|exact H| |exact H]; sproj; rewrite ?closing_append_clients; reflexivity.
-  - (* ASuspend *) destruct (alookup Z.eqb i0 (clients s)) as [c|] eqn:E; [|eapply nocb_frame; [|exact H]; reflexivity].
+  - (* ASuspend *) destruct (live_client i0 s) as [c|] eqn:E0; [apply live_client_some in E0; destruct E0 as [E Er]|eapply nocb_frame; [|exact H]; reflexivity].
     destruct (c_susp c); [exact H|].
     eapply nocb_frame; [apply poll_set_clients|]. apply nocb_upd; [exact H | intros ->; cbn; congruence].
-  - (* AResume *) destruct (alookup Z.eqb i0 (clients s)) as [c|] eqn:E; [|eapply nocb_frame; [|exact H]; reflexivity].
+  - (* AResume *) destruct (live_client i0 s) as [c|] eqn:E0; [apply live_client_some in E0; destruct E0 as [E Er]|eapply nocb_frame; [|exact H]; reflexivity].
     destruct (negb (c_susp c)); [exact H|].
     eapply nocb_frame; [apply poll_set_clients|]. apply nocb_upd; [exact H | intros ->; cbn; congruence].
   - eapply nocb_frame; [apply do_interrupt_clients | exact H].
@@ -546,7 +652,7 @@ Lemma new_client_frame i s :
   timers s' = timers s /\ listeners s' = listeners s /\ estabs s' = estabs s.
 Proof.
   unfold new_client. cbn zeta.
-  pose proof (poll_set_frame (Cl i) fl_R (set_used (Cl i :: used (set_clients (clients s ++ [(i, mkCl false 0 false)]) s)) (set_clients (clients s ++ [(i, mkCl false 0 false)]) s))) as F.
+  pose proof (poll_set_frame (Cl i) fl_R (set_used (Cl i :: used (set_clients (clients s ++ [(i, mkCl false 0 false false)]) s)) (set_clients (clients s ++ [(i, mkCl false 0 false false)]) s))) as F.
   cbn zeta in F. destruct F as (_ & F2 & F3 & F4 & _). rewrite F2, F3, F4. auto.
 Qed.
 
@@ -559,16 +665,14 @@ Proof.
   set (s1 := new_client i (log (EvCreated (Cl i) 0 0) s)).
   assert (SInv s1) as HI1 by (apply SInv_new_client; [apply SInv_log; exact HI | exact Fn]).
   assert (CplR s1) as H1 by (apply CplR_new_client; assumption).
-  assert (alive_s s1 (Cl i) = true) as Ali by (cbn [alive_s]; apply zmem_In; apply new_client_has).
+  assert (~ In i (map fst (clients s))) as Hn by (intros C; apply Fn; apply (si_used_c _ HI); exact C).
+  assert (alookup Z.eqb i (clients s1) = Some (mkCl false 0 false false)) as L1 by (subst s1; apply new_client_lookup; exact Hn).
+  assert (alive_s s1 (Cl i) = true) as Ali by (apply (alive_client s1 i _ L1); reflexivity).
   assert (alive_s s1 e = true) as Al1.
   { pose proof (new_client_frame i (log (EvCreated (Cl i) 0 0) s)) as Fr. cbn zeta in Fr. destruct Fr as (F1 & F2 & F3).
     destruct e as [j|j|j|j]; cbn [alive_s] in *; fold s1 in F1, F2, F3; rewrite ?F1, ?F2, ?F3; sproj; try exact Al.
     destruct k; discriminate. }
-  assert (nocb i s1) as Nc.
-  { assert (~ In i (map fst (clients s))) as Hn by (intros C; apply Fn; apply (si_used_c _ HI); exact C).
-    apply (alookup_None Z.eqb zeq) in Hn.
-    exists (mkCl false 0 false). subst s1. unfold new_client. cbn zeta. rewrite poll_set_clients. sproj.
-    rewrite alookup_app, Hn. cbn [alookup]. rewrite Z.eqb_refl. auto. }
+  assert (nocb i s1) as Nc by (exists (mkCl false 0 false false); auto).
   set (s1' := log (EvIntro e k i (clk s1)) s1).
   assert (CplR s1') as H1'.
   { apply CplR_log_step; [|exact H1]. intros m R. cbn [rmon_step].
@@ -578,55 +682,72 @@ Proof.
   assert (CplR s2) as H2 by (apply CplR_run_script; [apply SInv_log; exact HI1 | exact H1']).
   assert (nocb i s2) as Nc2 by (apply nocb_run_script; [apply SInv_log; exact HI1 | eapply nocb_frame; [|exact Nc]; reflexivity]).
   destruct Nc2 as [c [Lc Cb]].
-  pose proof (alive_client s2 i c Lc) as Al2.
-  destruct acc.
-  - sproj. rewrite Lc. apply CplR_upd_client; [eapply alookup_Some_key; [apply zeq | eauto]|].
-    eapply CplR_log_alive; [reflexivity | exact Al2 | exact H2].
-  - (* null: the monitor drops the client now, the pool a moment later *)
-    assert (CplRg (zremove i) (log (EvIntroRet i false) s2)) as H3.
-    { destruct H2 as [m [A R]]. exists (r_del (Cl i) m). sproj. unfold rmon_run in *. cbn [mon_run]. rewrite A. cbn [rmon_step].
-      rewrite (r_alive_rel m s2 _ R), Al2. split; [reflexivity|].
-      destruct R as (R1 & R2 & R3 & R4 & R5 & R6). unfold relRg, idl in *. sproj. cbn [r_del r_tm r_cl r_li r_es r_seen r_reg].
-      rewrite R1, R2, R3, R4, R5, R6. repeat split; reflexivity. }
-    unfold delete_client. cbn zeta.
-    set (s3 := poll_remove (Cl i) (set_closing (zremove i (closing (log (EvIntroRet i false) s2))) (log (EvIntroRet i false) s2))).
-    assert (CplRg (zremove i) s3) as H4 by (subst s3; apply CplR_poll_remove; apply CplR_set_closing; exact H3).
-    destruct H4 as [m [A R]]. exists m. sproj. split; [exact A|].
-    destruct R as (R1 & R2 & R3 & R4 & R5 & R6). unfold relRg, idl in *. sproj. rewrite <- zremove_keys. repeat split; assumption.
+  assert (In i (map fst (clients s2))) as Hi2 by (eapply alookup_Some_key; [apply zeq | eauto]).
+  set (s3 := log (EvIntroRet i acc) s2).
+  assert (SInv s3) as HI3 by (apply SInv_log; exact HI2).
+  assert (alookup Z.eqb i (clients s3) = Some c) as Lc3 by exact Lc.
+  destruct (c_rm c) eqn:Erm.
+  - (* removed by the callback that announced it: whatever that callback returned, the client is deleted *)
+    assert (CplR s3) as H3.
+    { subst s3. apply CplR_log_step; [|exact H2]. intros m R. cbn [rmon_step].
+      rewrite (r_alive_rel m s2 _ R), (dead_client s2 i c HI2 Lc Erm).
+      destruct R as (_ & _ & _ & _ & R5 & _). rewrite R5.
+      replace (emem (Cl i) (used s2)) with true; [reflexivity|]. symmetry. apply emem_In. apply (si_used_c _ HI2). exact Hi2. }
+    assert (CplR (delete_client i s3)) as H4 by (apply (CplR_delete_zombie i c); assumption).
+    destruct acc; [|exact H4]. rewrite Lc3, Erm. exact H4.
+  - pose proof (alive_client s2 i c Lc Erm) as Al2.
+    destruct acc.
+    + rewrite Lc3, Erm. eapply CplR_upd_client; [exact Lc3 | cbn; congruence|].
+      eapply CplR_log_alive; [reflexivity | exact Al2 | exact H2].
+    + (* null: the monitor drops the client now, the pool a moment later *)
+      assert (CplRg (zremove i) s3) as H3.
+      { subst s3. destruct H2 as [m [A R]]. exists (r_del (Cl i) m). sproj. unfold rmon_run in *. cbn [mon_run]. rewrite A. cbn [rmon_step].
+        rewrite (r_alive_rel m s2 _ R), Al2. split; [reflexivity|].
+        destruct R as (R1 & R2 & R3 & R4 & R5 & R6). unfold relRg, idl in *. sproj. cbn [r_del r_tm r_cl r_li r_es r_seen r_reg].
+        rewrite R1, R2, R3, R4, R5, R6. repeat split; reflexivity. }
+      unfold delete_client. cbn zeta.
+      set (s4 := poll_remove (Cl i) (set_closing (zremove i (closing s3)) s3)).
+      assert (CplRg (zremove i) s4) as H4 by (subst s4; apply CplR_poll_remove; apply CplR_set_closing; exact H3).
+      assert (clients s4 = clients s2) as Ec by (subst s4; rewrite poll_remove_clients; reflexivity).
+      destruct H4 as [m [A R]]. exists m. sproj. split; [exact A|].
+      destruct R as (R1 & R2 & R3 & R4 & R5 & R6). unfold relRg, idl in *. sproj. rewrite Ec in *.
+      rewrite live_keys_aremove by apply (si_cnd _ HI2). repeat split; assumption.
 Qed.
 
 (* ---------- dispatch ------------------------------------------------------------------------------------------------------------------------ *)
 Lemma CplR_dispatch_write i ar g s :
-  SInv s -> alookup ent_eqb (Cl i) (socks s) = Some g -> fW g = true -> (ar = true -> fR g = true) -> CplR s ->
+  SInv s -> CbEx None s -> alookup ent_eqb (Cl i) (socks s) = Some g -> fW g = true -> (ar = true -> fR g = true) -> CplR s ->
   CplR (dispatch_write i ar s).
 Proof.
-  intros HI Eg Hw Hr H. unfold dispatch_write. destruct (alookup Z.eqb i (clients s)) as [c|] eqn:E; [|exact H].
-  pose proof (alive_client s i c E) as Al.
+  intros HI HB Eg Hw Hr H. unfold dispatch_write. destruct (alookup Z.eqb i (clients s)) as [c|] eqn:E; [|exact H].
+  destruct (HB i c) as [_ Erm]; [eapply alookup_In; [apply zeq | exact E] | discriminate|].
+  pose proof (alive_client s i c E Erm) as Al.
   assert (In i (map fst (clients s))) as Hi by (eapply alookup_Some_key; [apply zeq | eauto]).
   destruct (0 <? c_back c).
   - cbn zeta. set (r := send_result (c_back c) (next_send (c_back c) s)).
     set (s1 := log (EvSend i (c_back c) r true) (drop_send s)).
     assert (SInv s1) as HI1 by (apply SInv_log; apply SInv_drop_send; exact HI).
+    assert (alookup Z.eqb i (clients s1) = Some c) as E1 by exact E.
     assert (CplR s1) as H1.
     { apply CplR_log_step; [|apply CplR_drop_send; exact H]. intros m R. cbn [rmon_step].
       rewrite (r_alive_rel m _ _ R), (reg_has_rel idl m _ _ _ R). cbn [alive_s] in *. unfold drop_send. sproj. rewrite Al.
       rewrite Eg, has_out_W by (left; exact Hw). reflexivity. }
+    assert (forall b, let s2 := upd_client i (mkCl (c_cb c) b (c_susp c) (c_rm c)) s1 in
+                      SInv s2 /\ CplR s2 /\ alive_s s2 (Cl i) = true) as K.
+    { intros b s2. split; [apply SInv_upd_client; [exact HI1 | exact Hi]|].
+      split; [eapply CplR_upd_client; [exact E1 | reflexivity | exact H1]|].
+      subst s2. rewrite (upd_client_alive i _ c) by (try exact E1; reflexivity). exact Al. }
     destruct (failed_io r).
-    + set (s2 := upd_client i (mkCl (c_cb c) 0 (c_susp c)) s1).
-      assert (SInv s2) as HI2 by (apply SInv_upd_client; [exact HI1 | exact Hi]).
-      assert (CplR s2) as H2 by (apply CplR_upd_client; [exact Hi | exact H1]).
+    + destruct (K 0) as (HI2 & H2 & Al2).
       apply CplR_callback_closed; [apply SInv_poll_remove; exact HI2 | | apply CplR_poll_remove; exact H2].
-      cbn [alive_s]. rewrite poll_remove_clients. subst s2. unfold upd_client. sproj.
-      rewrite keys_aset_in by (try apply zeq; exact Hi). exact Al.
-    + set (s2 := upd_client i (mkCl (c_cb c) (c_back c - Z.max 0 r) (c_susp c)) s1).
-      assert (SInv s2) as HI2 by (apply SInv_upd_client; [exact HI1 | exact Hi]).
-      assert (CplR s2) as H2 by (apply CplR_upd_client; [exact Hi | exact H1]).
-      assert (alive_s s2 (Cl i) = true) as Al2.
-      { cbn [alive_s]. subst s2. unfold upd_client. sproj. rewrite keys_aset_in by (try apply zeq; exact Hi). exact Al. }
+      cbn [alive_s]. rewrite poll_remove_clients. exact Al2.
+    + destruct (K (c_back c - Z.max 0 r)) as (HI2 & H2 & Al2).
+      set (s2 := upd_client i (mkCl (c_cb c) (c_back c - Z.max 0 r) (c_susp c) (c_rm c)) s1) in *.
       destruct (c_back c - Z.max 0 r =? 0).
       * set (f' := if c_susp c then fl_none else fl_R).
         apply CplR_callback_write.
-        -- apply SInv_poll_set; [exact HI2|]. cbn [sock_ok]. split; [apply zmem_In; exact Al2 | subst f'; destruct (c_susp c); split; reflexivity].
+        -- apply SInv_poll_set; [exact HI2|]. cbn [sock_ok]. split; [|subst f'; destruct (c_susp c); split; reflexivity].
+           subst s2. unfold upd_client. sproj. rewrite keys_aset_in by (try apply zeq; exact Hi). exact Hi.
         -- cbn [alive_s]. rewrite poll_set_clients. exact Al2.
         -- apply poll_set_reg.
         -- apply CplR_poll_set; [exact Al2 | subst f'; destruct (c_susp c); reflexivity | exact H2].
@@ -640,9 +761,9 @@ Proof.
 Qed.
 
 Lemma CplR_dispatch e f g s :
-  SInv s -> alookup ent_eqb e (socks s) = Some g -> fl_sub f g = true -> CplR s -> CplR (dispatch e f s).
+  SInv s -> CbEx None s -> alookup ent_eqb e (socks s) = Some g -> fl_sub f g = true -> CplR s -> CplR (dispatch e f s).
 Proof.
-  intros HI Eg Sub H. pose proof (si_socks _ HI _ _ Eg) as Ok. pose proof (alive_of_sock s e g HI Eg) as Al.
+  intros HI HB Eg Sub H. pose proof (si_socks _ HI _ _ Eg) as Ok. pose proof (alive_of_sock s e g HI HB Eg) as Al.
   apply fl_sub_spec in Sub. destruct Sub as (SR & SW & SA & SC).
   destruct e as [i|i|i|i]; cbn [dispatch]; [exact H | | |].
   - destruct (fW f) eqn:Fw.
@@ -718,44 +839,48 @@ Proof.
   - destruct (pop_selected s) as [s2' o] eqn:P. intros Q; inversion Q; subst. eapply pop_selected_event; eauto.
 Qed.
 
-Lemma CplR_run_loop fuel items s : SInv s -> CplR s -> CplR (run_loop fuel items s).
+Lemma CplR_run_loop fuel items s : SInv s -> CbEx None s -> CplR s -> CplR (run_loop fuel items s).
 Proof.
-  revert items s. induction fuel as [|f IH]; intros items s HI H; cbn [run_loop]; [auto with cplR|].
+  revert items s. induction fuel as [|f IH]; intros items s HI HB H; cbn [run_loop]; [auto with cplR|].
   cbn zeta.
-  set (s0 := timer_phase f (clk s) (log (EvNow (clk s)) s)).
-  assert (SInv s0) as HI0 by (apply SInv_timer_phase; apply SInv_log; exact HI).
-  assert (CplR s0) as H0 by (apply CplR_timer_phase; [apply SInv_log; exact HI | auto with cplR]).
+  set (s0 := timer_phase f (clk s) (log (EvSel (sel_view (selected s))) (log (EvNow (clk s)) s))).
+  assert (SInv s0) as HI0 by (apply SInv_timer_phase; apply SInv_log; apply SInv_log; exact HI).
+  assert (CbEx None s0) as HB0 by (apply CbEx_timer_phase; [apply SInv_log; apply SInv_log; exact HI | eapply CbEx_frame; [|exact HB]; reflexivity]).
+  assert (CplR s0) as H0 by (apply CplR_timer_phase; [apply SInv_log; apply SInv_log; exact HI | auto with cplR]).
   set (s1 := closing_phase f s0).
   assert (SInv s1) as HI1 by (apply SInv_closing_phase; exact HI0).
+  assert (CbEx None s1) as HB1 by (apply CbEx_closing_phase; assumption).
   assert (CplR s1) as H1 by (apply CplR_closing_phase; assumption).
   destruct (stuck s1); [exact H1|].
   match goal with |- context [poll ?t items s1] => set (tmo := t) end.
   pose proof (SInv_poll tmo items s1 HI1) as HI2. pose proof (CplR_poll tmo items s1 H1) as H2.
-  destruct (poll tmo items s1) as [[s2 evt] items2] eqn:P. cbn [fst] in HI2, H2.
+  pose proof (poll_clients tmo items s1) as Pc.
+  destruct (poll tmo items s1) as [[s2 evt] items2] eqn:P. cbn [fst] in HI2, H2, Pc.
+  assert (CbEx None s2) as HB2 by (eapply CbEx_frame; [exact Pc | exact HB1]).
   destruct evt as [[e fl]|].
   - destruct (fl_is_none fl).
     + destruct (intr s2); [auto with cplR | apply IH; assumption].
     + destruct (poll_event tmo items s1 s2 e fl items2 HI1 P) as [g [Eg Sub]].
-      apply IH; [apply SInv_dispatch; exact HI2 | eapply CplR_dispatch; eauto].
+      apply IH; [apply SInv_dispatch; exact HI2 | apply CbEx_dispatch; assumption | eapply CplR_dispatch; eauto].
   - destruct (intr s2); [auto with cplR | apply IH; assumption].
 Qed.
 
 Lemma CplR_init : CplR init.
 Proof. exists rmon0. cbn. repeat split; reflexivity. Qed.
 
-Lemma CplR_step fuel s o : SInv s -> CplR s -> CplR (step fuel s o).
+Lemma CplR_step fuel s o : SInv s -> CbEx None s -> CplR s -> CplR (step fuel s o).
 Proof.
-  intros HI H. unfold step. destruct (stuck s); [exact H|].
+  intros HI HB H. unfold step. destruct (stuck s); [exact H|].
   destruct o; try (auto with cplR; fail).
   - apply CplR_exec_action; assumption.
-  - unfold run. apply CplR_run_loop; [apply SInv_log; exact HI | auto with cplR].
+  - unfold run. apply CplR_run_loop; [apply SInv_log; exact HI | eapply CbEx_frame; [|exact HB]; reflexivity | auto with cplR].
 Qed.
 
-Lemma CplR_steps fuel l s : SInv s -> CplR s -> CplR (steps fuel s l).
+Lemma CplR_steps fuel l s : SInv s -> CbEx None s -> CplR s -> CplR (steps fuel s l).
 Proof.
-  unfold steps. revert s. induction l as [|o l IH]; cbn [fold_left]; intros s HI H; [exact H|].
-  apply IH; [apply SInv_step; exact HI | apply CplR_step; assumption].
+  unfold steps. revert s. induction l as [|o l IH]; cbn [fold_left]; intros s HI HB H; [exact H|].
+  apply IH; [apply SInv_step; exact HI | apply CbEx_step; assumption | apply CplR_step; assumption].
 Qed.
 
 Theorem rmon_accepts_model fuel l : rmon_run (trace (steps fuel init l)) <> None.
-Proof. destruct (CplR_steps fuel l init SInv_init CplR_init) as [m [A _]]. congruence. Qed.
+Proof. destruct (CplR_steps fuel l init SInv_init CbEx_init CplR_init) as [m [A _]]. congruence. Qed.
